@@ -348,6 +348,46 @@ def run_case(ctx, cid, P):
     ctx.cell("limitcell", "rsl=%s/%s/%s/pad=%s" % (
         P["c_rsl"], P["s_rsl"], pair.VNAME[ver] if ver == (3, 4) else "le12",
         P["pad"]))
+    # last words: one side writes and closes at once; what it wrote must
+    # still reach the reader, also when the reader asks for more than will
+    # ever come (the close_notify then ends the read) or reads in pieces
+    wside = rng.choice("cs")
+    rside = peer[wside]
+    n_last = rng.choice([1, 10, 300, 1017])
+    if do_write(wside, n_last):
+        tcl = drive.Task("close", drive.aclose(ends[wside]), socks[wside])
+        drive.run([tcl], p.link, max_steps=2000)
+        f = fifo[wside]
+        style = rng.choice(["min_over", "pieces", "plain"])
+        got_all = bytearray()
+        for _ in range(3000):       # tiny recordSize: one record per read
+            if style == "min_over":
+                mx, mn = None, n_last + 500
+            elif style == "pieces":
+                mx, mn = 7, 1
+            else:
+                mx, mn = None, 1
+            t = drive.Task("r", drive.aread(ends[rside], mx, mn),
+                           socks[rside])
+            drive.run([t], p.link, max_steps=4000)
+            if t.status != "done":
+                fail("read_failed", exc=repr(t.exc or t.status), mx=mx,
+                     mn=mn, phase="last_words")
+                break
+            if not t.result:
+                break
+            got_all += t.result
+        else:
+            fail("read_failed", exc="no end of data", phase="last_words")
+        ctx.ev()
+        ctx.count("last_words")
+        bad = f.check_read(bytes(got_all))
+        if bad is not None:
+            fail("fifo", fifo=bad["kind"], detail=bad, phase="last_words")
+        elif f.pending:
+            fail("undelivered", pending=f.pending, phase="last_words",
+                 style=style)
+        ctx.cell("lastwords", "%s/%s" % (pair.VNAME[ver], style))
     ctx.count("connections")
     ctx.cell("version", pair.VNAME[ver])
     ctx.cell("cipher", su.cipher)
